@@ -337,6 +337,123 @@ class ProgGen:
 			f'\t{fn}(True, a, None, None, None, None, None)' if rng.random() < 0.3 else f'\t{fn}(False, 0, {full})']
 		return out, body
 
+	def multi_inherit_block(self) -> tuple[list[str], list[str]]:
+		"""Multiple inheritance over TREE-shaped hierarchies (no diamonds: every class has one path to each ancestor, so CPython's MRO is
+		the depth-first left-to-right walk): two or three chains of one to three classes, a class deriving from the leaves of all chains
+		in a random order; attributes and methods of the same name are declared with DIFFERENT types at random levels of the chains (in
+		particular: only inherited on the left, declared directly on the right). Each `__init__` runs its bases first (right to left)
+		and then sets what its class declares, so an attribute holds the value of the class first in the MRO that declares it.
+		Returns (definitions, body lines of the entry function)."""
+		rng = self.rng
+		out: list[str] = []
+		body: list[str] = []
+		val = {'int': '7', 'str': '"b"', 'float': '0.5', 'bool': 'True', 'list[int]': '[1, 2]'}
+		names = [self.fresh('m') for _ in range(rng.randint(2, 3))]
+		meths = [self.fresh('f') for _ in range(rng.randint(1, 2))]
+		leaves: list[str] = []
+		declared: set[str] = set()
+		mids: list[str] = []
+		for ci in range(rng.randint(2, 3)):
+			depth = rng.randint(1, 3)
+			tys = {n: rng.choice(list(val)) for n in [*names, *meths]}
+			level = {n: rng.randrange(depth) for n in [*names, *meths] if rng.random() < 0.7}
+			if ci == 0 and depth > 1:
+				level = {n: 0 for n in level}              # the left chain declares at its root: the leaf only inherits
+			parent = None
+			for lv in range(depth):
+				cls = self.fresh('K')
+				own_a = [n for n in names if level.get(n) == lv]
+				own_m = [n for n in meths if level.get(n) == lv]
+				out += ['', '', f"class {cls}{f'({parent})' if parent else ''}:"] + [f'\t{n}: {tys[n]}' for n in own_a]
+				out += ['', '\tdef __init__(self) -> None:'] + ([f'\t\t{parent}.__init__(self)'] if parent else []) + [f'\t\tself.{n} = {val[tys[n]]}' for n in own_a]
+				if not parent and not own_a:
+					out += ['\t\tpass']
+				for n in own_m:
+					out += ['', f'\tdef {n}(self) -> {tys[n]}:', f'\t\treturn {val[tys[n]]}']
+				own = self.fresh('only')
+				out += ['', f'\tdef {own}(self) -> int:', f'\t\treturn {rng.randint(1, 9)}']
+				declared |= set(own_a) | set(own_m)
+				parent = cls
+				if lv < depth - 1:
+					mids.append(cls)
+			leaves.append(parent)  # type: ignore[arg-type]
+		rng.shuffle(leaves)
+		top = self.fresh('M')
+		out += ['', '', f"class {top}({', '.join(leaves)}):", '\tdef __init__(self) -> None:'] + [f'\t\t{b}.__init__(self)' for b in reversed(leaves)]
+
+		def decl(expr: str) -> str:
+			v = self.fresh('v')
+			body.append(f'\t{v} = {expr}')
+			return v
+
+		for cls in [top, *rng.sample(leaves, 1)]:
+			o = decl(f'{cls}()')
+			for n in names:
+				if n in declared and (cls == top or rng.random() < 0.5):
+					decl(f'{o}.{n}')
+			for n in meths:
+				if n in declared and (cls == top or rng.random() < 0.5):
+					r = decl(f'{o}.{n}()')
+					decl(f'[{o}.{n}(), {r}]')
+		self.count(f'multi-inherit:{len(leaves)}')
+		return out, body
+
+	def generic_chain_block(self, base: str) -> tuple[list[str], list[str]]:
+		"""A generic class with attributes typed by its type variable, a NON-generic class that fixes the type argument, and one or two
+		further levels below it: the attributes are read on instances of every level and through `self` inside their methods (the type
+		variable has to be replaced by the argument fixed two or three levels up). A METHOD returning the type variable, called on a
+		class two or more levels below the generic one, is typed as the receiver class (known finding generic-method-on-indirect-subclass),
+		and on a direct child that fixes a generic argument (`F(H[list[int]])`) as the innermost argument (known finding
+		generic-method-nested-type-argument; both: proposed/C03-generic-method-through-inheritance.md): low rate, result unused.
+		Returns (definitions, body lines of the entry function)."""
+		rng = self.rng
+		out: list[str] = []
+		body: list[str] = []
+		arg, mk = rng.choice([('int', '3'), ('str', '"h"'), ('float', '1.5'), (base, f'{base}(2)'), ('list[int]', '[4]')])
+		attrs = rng.sample([('value', 'T', 'value'), ('items', 'list[T]', '[value]'), ('table', 'dict[str, T]', '{"k": value}'), ('pair', 'tuple[T, int]', '(value, 1)')], rng.randint(2, 3))
+		g = self.fresh('H')
+		out += ['', '', f'class {g}(Generic[T]):'] + [f'\t{a}: {t}' for a, t, _ in attrs] + ['', '\tdef __init__(self, value: T) -> None:'] + [f'\t\tself.{a} = {e}' for a, _, e in attrs]
+		out += ['', '\tdef get(self) -> T:', f'\t\treturn self.{attrs[0][0]}' if attrs[0][1] == 'T' else '\t\treturn self.peek()', '', '\tdef peek(self) -> T:', '\t\treturn self.' + ('value' if any(a == 'value' for a, _, _ in attrs) else 'items[0]' if any(a == 'items' for a, _, _ in attrs) else 'table["k"]' if any(a == 'table' for a, _, _ in attrs) else 'pair[0]')]
+		chain = [g]
+		fixed = self.fresh('F')
+		out += ['', '', f'class {fixed}({g}[{arg}]):', '\tdef __init__(self) -> None:', f'\t\tsuper().__init__({mk})']
+		chain.append(fixed)
+		for _ in range(rng.randint(1, 2)):
+			cls = self.fresh('L')
+			m = self.fresh('read')
+			a0 = rng.choice(attrs)[0]
+			out += ['', '', f'class {cls}({chain[-1]}):', '\tstep: int', '', '\tdef __init__(self) -> None:', '\t\tsuper().__init__()', '\t\tself.step = 2', '',
+				f'\tdef {m}(self) -> int:', f'\t\t{self.fresh("v")} = self.{a0}', f'\t\t{self.fresh("v")} = self.step', '\t\treturn self.step']
+			chain.append(cls)
+			body.append(f'\t{cls}().{m}()')
+
+		def decl(expr: str) -> str:
+			v = self.fresh('v')
+			body.append(f'\t{v} = {expr}')
+			return v
+
+		use = {'value': ['{r}'], 'items': ['{r}[0]', '[z for z in {r}]'], 'table': ['{r}["k"]'], 'pair': ['{r}[0]', '{r}[1]']}
+		for cls in chain[1:]:
+			o = decl(f'{cls}()')
+			for a, _, _ in attrs:
+				r = decl(f'{o}.{a}')
+				decl(rng.choice(use[a]).format(r=r))
+			if cls == fixed and '[' not in arg:
+				decl(f'{o}.get()')
+				decl(f'[{o}.peek()]')
+			elif cls == fixed:
+				if rng.random() < 0.3:
+					decl(f'{o}.get()')     # known finding generic-method-nested-type-argument: the result is not used again
+					self.count('generic-method-nested-type-argument')
+			elif rng.random() < 0.15:
+				decl(f'{o}.get()')     # known finding: the result is not used again
+				self.count('generic-method-on-indirect-subclass')
+		h = decl(f'{g}({mk})')
+		decl(f'{h}.{attrs[0][0]}')
+		decl(f'{h}.get()')
+		self.count(f'generic-chain:{arg if arg != base else "class"}:{len(chain) - 1}')
+		return out, body
+
 	def generate(self) -> tuple[str, dict[str, int]]:
 		rng = self.rng
 		out: list[str] = []
@@ -409,12 +526,20 @@ class ProgGen:
 			self.count('generic')
 			gdefs, generic_body = self.generic_block(base)
 			out += gdefs
+			if rng.random() < 0.7:
+				cdefs2, cbody2 = self.generic_chain_block(base)
+				out += cdefs2
+				generic_body += cbody2
 		callback_body: list[str] = []
 		if use_callbacks:
 			cdefs, callback_body = self.callback_block()
 			out += cdefs
 		ndefs, nullable_body = self.nullable_block(base, meth) if rng.random() < 0.75 else ([], [])
 		out += ndefs
+		if rng.random() < 0.6:
+			mdefs, mbody = self.multi_inherit_block()
+			out += mdefs
+			nullable_body += mbody
 		it_cls = itb_cls = None
 		it_ty = rng.choice(['int', 'str', 'float'])
 		if use_iter:
